@@ -105,3 +105,26 @@ def ser(tab, n, version, private):
 
 def neuter(n):
     return RNode(None, n.K, n.c, n.depth, n.idx, n.pfp, n.net)
+
+
+def ref_addr(tab, kind, sec, net):
+    """records the hash entries the Address spec looks up; returns the address string"""
+    test = net == "test"
+    h = tab.hash160(sec)
+    if kind == "p2pkh":
+        pay = bytes([0x6f if test else 0x00]) + h
+        tab.hash256(pay)
+        return R.b58check_enc(pay)
+    if kind == "p2wpkh":
+        return None
+    if kind == "p2sh_p2wpkh":
+        pay = bytes([0xc4 if test else 0x05]) + tab.hash160(b"\x00\x14" + h)
+        tab.hash256(pay)
+        return R.b58check_enc(pay)
+    ws = b"\x51" + bytes([len(sec)]) + sec + b"\x51\xae"
+    h256 = tab.sha256(ws)
+    if kind == "p2wsh":
+        return None
+    pay = bytes([0xc4 if test else 0x05]) + tab.hash160(b"\x00\x20" + h256)
+    tab.hash256(pay)
+    return R.b58check_enc(pay)
